@@ -607,9 +607,13 @@ func setEnv(op map[string]any) {
 		return
 	}
 	cover := os.Getenv("GOCOVERDIR") // tools/coverage.py: the instrumented binary writes its counters there at exit
+	tmp := os.Getenv("TMPDIR")       // the orchestrator's scratch directory (removed by it, also after a crash)
 	os.Clearenv()
 	if cover != "" {
 		os.Setenv("GOCOVERDIR", cover)
+	}
+	if tmp != "" {
+		os.Setenv("TMPDIR", tmp)
 	}
 	for k, v := range env {
 		if s, ok := v.(string); ok {
